@@ -42,7 +42,7 @@ FP = [(SUB, 'CompiledSubprocess._send'), (SUB, 'CompiledSubprocess._kill'), (SUB
       ('jedi/api/environment.py', 'Environment.get_inference_state_subprocess'),
       ('jedi/api/environment.py', 'Environment.get_sys_path')]
 
-OP_TIMEOUT = 300         # hang watchdog per operation (seconds; generous: the machine may be loaded)
+OP_TIMEOUT = 900         # hang watchdog per operation (seconds; generous: the machine may be heavily loaded)
 PHASES = ('before', 'after', 'trunc', 'raise')
 FAULT_G = {None: 'FNone', 'before': 'FDeadBefore', 'before-late': 'FDeadBefore', 'after': 'FDiesAfter',
            'trunc': 'FTrunc', 'raise': 'FRaises'}
@@ -790,7 +790,7 @@ def run(ctx):
     # long cases first so that the pool drains evenly
     order = sorted(range(len(cases)), key=lambda i: -len(cases[i]['program']))
     t = time.time()
-    results = common.pmap(run_program, [cases[i] for i in order], chunksize=1)
+    results = common.pmap(run_program, [cases[i] for i in order], chunksize=1, timeout=6 * 3600)
     ctx.stat('wall_execute', round(time.time() - t, 1))
     t = time.time()
     good, nfaulted = evaluate(ctx, results)
